@@ -210,13 +210,13 @@ S08B_EXCEPTIONS = {
 
 
 def _panicking_increment(tree, name):
-    t = tree
-    while t[0] in ('ref', 'deref'):
-        t = t[1]
-    if t[0] == 'field' and t[2] == '0' and t[1][0] == 'bin' and t[1][1] == 'AddWithOverflow':
-        t = t[1]
-        a, b = t[2], t[3]
-        return (_is_self_field(a, name) and not _mentions_self_field(b, name)) or (_is_self_field(b, name) and not _mentions_self_field(a, name))
+    """the stored value contains `self.<name> + x` in overflow-checked arithmetic (possibly inside a product with 0/1 flags: the
+    branchless `(f + 1) * keep` idiom resets by data, not by a bound on f)"""
+    for t in walk_tree(tree):
+        if isinstance(t, tuple) and t and t[0] == 'bin' and t[1] == 'AddWithOverflow':
+            a, b = t[2], t[3]
+            if (_is_self_field(a, name) and not _mentions_self_field(b, name)) or (_is_self_field(b, name) and not _mentions_self_field(a, name)):
+                return True
     return False
 
 
